@@ -30,6 +30,9 @@ def rule_callable(spec, case, built, tie):
 def gen(ctx):
     rng = ctx.rng
     case = core.gen_election(rng, btypes=("app", "app", "app", "card", "ord"), m_lo=1, m_hi=6)
+    if case.btype == "card" and rng.random() < 0.4:
+        # cardinal ballots with negative scores: a voter can dislike every compared outcome (and still has a least disliked one)
+        case = Case(case.projects, case.budget, "card", [{k: (F(-rng.randint(1, 4)) if rng.random() < 0.5 else v) for k, v in b.items()} for b in case.ballots], case.seed)
     bt = case.btype
     add = list(core.SAT_BY_TYPE[bt])
     specs = []
@@ -40,6 +43,10 @@ def gen(ctx):
             specs.append("greedy:" + s)
     if bt == "app":
         specs.append("phragmen")
+    if bt == "card" and any(v < 0 for b in case.ballots for v in b.values()):
+        # the compared RULES are run with a measure that ignores the scores' sign problem (Chamberlin-Courant / cost); the
+        # comparison measure below may be the signed additive one
+        specs = ["greedy:CC_Sat", "greedy:Cost_Sat", "greedy:Cardinality_Sat"]
     k = rng.choice([2, 2, 3])
     seq = [rng.choice(specs) for _ in range(k)]
     if rng.random() < 0.25:
@@ -104,7 +111,7 @@ def check(case, cfg):
 
 def run(ctx, n=None, compare=True):
     ctx.rule = RULE
-    n = n or ctx.scale(1200, 10000)
+    n = n or ctx.scale(4000, 20000)
     lines, info = [], []
     for _ in range(n):
         if ctx.budget_s is not None and ctx.elapsed() > ctx.budget_s:
@@ -128,12 +135,56 @@ def run(ctx, n=None, compare=True):
                 line = f"compose kind={cfg['kind']} {case.enc_common(built.entries(), built.enum())} R={rtok} {stok}"
                 lines.append(line)
                 info.append(("ok " + "|".join(",".join(str(i) for i in o) for o in got), case, cfg))
+    history_stream(ctx, ctx.scale(400, 3000))
     if compare and lines:
         res = core.run_driver(lines)
         for line, o, (impl_s, case, cfg) in zip(lines, res, info):
             if o.strip() != impl_s.strip():
                 ctx.disagreements.append({"line": line, "impl": impl_s, "model": o.strip(), "case": case.to_json(), "cfg": cfg})
             ctx.sample(f"{line} -> impl: {impl_s} | model: {o.strip()}", cap=5)
+
+
+def history_stream(ctx, n):
+    """the same comparison on one long-lived profile object before and after a voter's ballot is replaced in place"""
+    import pabutools.rules as R
+
+    rng = ctx.rng
+    for _ in range(n):
+        case, cfg = gen(ctx)
+        if len(case.ballots) < 2 or cfg["multi"]:
+            continue
+        names = [nm for nm, _ in case.projects]
+        i = rng.randrange(len(case.ballots))
+        newb = core.gen_ballots(rng, case.btype, names, 1, 1)[0]
+        edited = list(case.ballots)
+        edited[i] = newb
+        case2 = Case(case.projects, case.budget, case.btype, edited, case.seed)
+        built = rules.Built(case, multi=False)
+        fresh = rules.Built(case2, multi=False)
+        tie = core.tie_rule(cfg["tie"], case, built.projs)
+        fn = R.social_welfare_comparison if cfg["kind"] == "welfare" else R.popularity_comparison
+
+        def call(b):
+            fs, ps = [], []
+            for spec in cfg["rules"]:
+                f, kw = rule_callable(spec, case, b, core.tie_rule(cfg["tie"], case, b.projs))
+                fs.append(f)
+                ps.append(kw)
+            return [[case.rank[p.name] for p in o] for o in fn(b.inst, b.prof, core.sat_class(cfg["sat"]), fs, ps)]
+
+        try:
+            call(built)
+            built.prof[i] = fresh.prof[i]
+            second = call(built)
+            want = call(fresh)
+        except Exception as e:  # noqa: BLE001
+            ctx.violations.append(violation(f"comparison raised {e!r} in an edit history", case2, cfg, sig={"kind": cfg["kind"], "history": True, "err": core.err_enum(e)}))
+            continue
+        ctx.evaluations += 1
+        ctx.count("history", cfg["kind"])
+        if sorted(map(sorted, second)) != sorted(map(sorted, want)):
+            ctx.violations.append(violation("comparison on a profile edited in place differs from the comparison on a freshly built profile with the same ballots",
+                                            case2, dict(cfg, edited_voter=i), impl=second, expected=want, sig={"kind": cfg["kind"], "history": True}))
 
 
 def search(ctx, disagreements):
